@@ -418,7 +418,9 @@ def extern(state, *symbol_name: int):
         if symbol.name.lower() == "all":
             for name in state["internal_symbols_list"]:
                 compiler.declare_external_symbol(symbol, name, state)
-            state["extern_all"] = True
+            # Remember where '.extern all' was written: the position is needed
+            # when a later export clashes with an already exported name
+            state["extern_all"] = symbol
         else:
             compiler.declare_external_symbol(symbol, symbol.name, state)
 
